@@ -22,6 +22,10 @@ CHECKS = [
         "Seeded search over histories of a real 1-4 peer Raft cluster (ipfs-cluster's consensus/raft over go-libp2p-raft, hashicorp/raft, BoltDB and the file snapshot store) on a simulated network with partitions, resets, stalls, process kills (copy of the tmpfs data folder at the kill instant, restart on the copy), graceful stops and snapshot/truncation knobs that force snapshot installs onto non-empty replicas. A recording datastore under dsstate yields every replica's applied writes in order; oracles: all applied runs are contiguous stretches of one sequence (operations ordered by first application), every live replica serves the fold of the prefix it has applied, acknowledged operations were applied before the call returned and are in the sequence, OfflineState after a graceful stop equals the applied prefix, every applied change reached the local tracker with identical content, and a fresh write commits within 60 simulated seconds after the last fault. Sampling, not proof.",
         "Disk model is process kill (no torn writes inside BoltDB); failed/timed-out calls may or may not have committed; how fast a lagging replica catches up is not judged; exact-trace replay of this heavy stack is >= 90% (one process per plan), oracles are schedule independent. Known finding: pins with origins do not survive the Raft log codec (reported, then explored with origins stripped).",
         "DESIGN.md §6 C01", "raftsim"),
+    chk("C02", "exploration",
+        "Seeded search over histories of 1-4 real CRDT replicas (consensus/crdt over go-ds-crdt, ipfs-lite bitswap, signed gossipsub and the dual DHT on a simulated network): LogPin/LogUnpin with batching disabled / size-triggered / age-triggered, bursts that put pin and unpin of one CID into one batch window and overflow the queue, partitions, latency skews, datastore write failures placed in the middle of a batch, trust changes. Oracles after a clean reconnection, a final marker write per replica (evidence that updates were exchanged) and a long quiet period: per-CID submission order on the submitting replica (later failed calls may or may not have landed), queue-full operations have no effect anywhere, mutually trusting replicas that hold each other's marker hold equal pinsets, no value appears that nobody submitted, updates of a never-trusted publisher are absent, and the last tracker call per CID agrees with the pinset. Sampling, not proof.",
+        "Which value wins between concurrent writers is not prescribed; a replica whose own datastore failed is not judged for convergence or hand-off (the statement lists commit failures of the submitter's batch); bare connection resets are not generated and the end game starts from a clean reconnection because gossipsub v0.4.1 can stay deaf after sub-second link flaps. Two known findings in go-ds-crdt v0.1.21 behaviour are reported as KNOWN-FINDING.",
+        "DESIGN.md §6 C02", "crdtsim"),
     chk("C03", "exploration",
         "Seeded search over peer sets, per-peer metric histories on the fake clock, current allocations, exclusion and priority lists and factor pairs: a real Cluster with the real allocators decides allocations (Pin, BlockAllocate, PeerRemove-driven re-pins) and each decision is judged against the monitor table read at the same simulated instant (no duplicate, added peers usable and not excluded, healthy holders kept, min <= healthy holders <= max, priority then strategy order, failure below min leaves the pinset untouched, factor -1 stores no allocations). Sampling, not proof.",
         "Ties may fall either way; a decision taken in the exact instant a metric expires is not judged; the consensus, monitor shell, tracker and IPFS are models (the freshness filter inside the monitor is the real metrics.Store).",
@@ -82,6 +86,7 @@ def main():
             {"name": "clustersim", "path": "/verif/harness/clustersim", "serves_properties": ["C03", "C04", "C10"], "kind_free_text": "real ipfscluster.Cluster + real allocators on mocknet against model consensus/monitor/tracker/IPFS"},
             {"name": "ipfshttpsim", "path": "/verif/harness/ipfshttpsim", "serves_properties": ["C16"], "kind_free_text": "real ipfshttp.Connector against a scripted in-memory HTTP daemon (http.DefaultTransport) under the fake clock"},
             {"name": "raftsim", "path": "/verif/harness/raftsim", "serves_properties": ["C01"], "kind_free_text": "real consensus/raft + go-libp2p-raft + hashicorp/raft + BoltDB on mocknet with tmpfs data folders, kill/restart, recording datastore"},
+            {"name": "crdtsim", "path": "/verif/harness/crdtsim", "serves_properties": ["C02"], "kind_free_text": "real consensus/crdt + go-ds-crdt + ipfs-lite + gossipsub + DHT on mocknet, fault-injecting datastore"},
             {"name": "monsim", "path": "/verif/harness/monsim", "serves_properties": ["C09"], "kind_free_text": "real metrics Store/Window/Checker and pubsubmon over gossipsub on mocknet under the fake clock"},
             {"name": "trackersim", "path": "/verif/harness/trackersim", "serves_properties": ["C05", "C06"], "kind_free_text": "real stateless tracker + optracker in a synctest bubble against model pinset and model IPFS daemon"},
         ],
